@@ -5,8 +5,8 @@ import (
 	"go/ast"
 	"go/constant"
 	"go/token"
-	"strings"
 	"go/types"
+	"strings"
 
 	"golang.org/x/tools/go/ssa"
 )
@@ -405,10 +405,10 @@ func matchesCompleteRule(p *Prog, r *Report, id, why string, only ...string) {
 // C02.R11: emitted dereferences
 
 var auditedDerefs = map[string]string{
-	"xtype.(*JenID).Deref":           "the pointee expression of a source pointer; every caller emits it under `source != nil` (C02.R2)",
-	"xtype.toCode":                   "pointer type expression *T",
-	"builder.(*Pointer).Build":       "*<constructor variable>: the variable was just assigned a non-nil pointer (default:update)",
-	"builder.(*TargetPointer).Build": "*<constructor variable>: the variable was just assigned a non-nil pointer (default:update)",
+	"xtype.(*JenID).Deref":                   "the pointee expression of a source pointer; every caller emits it under `source != nil` (C02.R2)",
+	"xtype.toCode":                           "pointer type expression *T",
+	"builder.(*Pointer).Build":               "*<constructor variable>: the variable was just assigned a non-nil pointer (default:update)",
+	"builder.(*TargetPointer).Build":         "*<constructor variable>: the variable was just assigned a non-nil pointer (default:update)",
 	"generator.(*generator).appendGenerated": "receiver type (c *Impl) of the generated methods",
 }
 
